@@ -832,6 +832,10 @@ func runLock(c *Ctx) []Ob {
 					if common {
 						continue
 					}
+					// attribute the conflict to the side that lacks the request mutex (both, if neither holds it)
+					if a.locks[lockID(e.reqMutex)] != modeNone && b.locks[lockID(e.reqMutex)] == modeNone {
+						continue
+					}
 					seenLoc[a.loc] = true
 					confl = append(confl, conflict{loc: a.loc, mine: a, other: y.h.Fn.Name(), theirs: b})
 					break
@@ -897,6 +901,72 @@ func runLock(c *Ctx) []Ob {
 			}
 		}
 	}
+	// L5: per-structure locks — a method that takes its receiver's own mutex must hold it in write
+	// mode at every write to that structure (worker pools call these methods concurrently even when
+	// the request mutex is held by the launcher).
+	nL5 := 0
+	for _, f := range c.ModFns() {
+		if f.Signature.Recv() == nil || len(f.Params) == 0 {
+			continue
+		}
+		rt := namedOf(f.Signature.Recv().Type())
+		if rt == nil {
+			continue
+		}
+		st, ok := rt.Underlying().(*types.Struct)
+		if !ok {
+			continue
+		}
+		own := map[lockID]bool{}
+		for i := 0; i < st.NumFields(); i++ {
+			if isSyncType(st.Field(i).Type()) {
+				own[st.Field(i)] = true
+			}
+		}
+		if len(own) == 0 {
+			continue
+		}
+		takes := false
+		for _, b := range f.Blocks {
+			for _, ins := range b.Instrs {
+				if call, ok := ins.(ssa.CallInstruction); ok {
+					if id, op, ok := lockOp(call.Common()); ok && own[id] && (op == "Lock" || op == "RLock") {
+						takes = true
+					}
+				}
+			}
+		}
+		if !takes {
+			continue
+		}
+		nL5++
+		r := e.flow(f, lockset{})
+		bad := ""
+		for _, a := range r.direct {
+			fl, ok := a.loc.(*fieldLoc)
+			if !ok || !a.write || fl.owner != rt.Obj().Name() {
+				continue
+			}
+			okW := false
+			for id := range own {
+				if a.locks[id] == modeW {
+					okW = true
+				}
+			}
+			if !okW {
+				bad = fmt.Sprintf("%s: write to %s holding {%s}", c.Pos(a.pos), locName(a.loc), a.locks.key())
+				break
+			}
+		}
+		key := "LOCK/L5:" + fnKey(f)
+		if bad != "" {
+			obs = append(obs, Ob{Key: key, Site: c.Pos(f.Pos()), Verdict: VIOLATION, Note: "method synchronises on its structure's own mutex but mutates the structure without holding it in write mode (concurrent callers — e.g. pool workers — race): " + bad})
+		} else {
+			obs = append(obs, Ob{Key: key, Site: c.Pos(f.Pos()), Verdict: OK, Note: "every write to the structure happens under its own mutex in write mode"})
+		}
+	}
+	c.Stats["self_locking_methods"] = nL5
+	obs = append(obs, floor("LOCK/handlers", "methods that take their structure's own mutex", nL5, 4))
 	c.Stats["handlers"] = len(hs)
 	c.Stats["handlers_locking_at_entry"] = nLockAtEntry
 	c.Stats["handler_pairs_mhp"] = nPairs
